@@ -87,6 +87,42 @@ Section Repo.
   Definition run (steps : list step) : list commit * cpindex :=
     fold_left run_step steps ([], None).
 
+  (** Two concurrent operations [a], [b] started from the same state and then merged
+      ([DefaultMutableIndex::merge_in], mutable.rs:529): the first operation's index is kept,
+      the other side's new commits are appended, and their stored path sets are copied from
+      the other index for as long as it has them — provided the kept index is enabled and
+      contiguous up to its end. *)
+  Fixpoint while_some {A} (l : list (option A)) : list A :=
+    match l with
+    | Some x :: t => x :: while_some t
+    | _ => []
+    end.
+  Definition merge_in (n1 : nat) (ix1 : cpindex) (n0 : nat) (ix2 : cpindex) (nb : nat) : cpindex :=
+    match ix1 with
+    | Some (s, es) =>
+        if Nat.eqb (s + length es) n1
+        then Some (s, es ++ while_some (map (fun j => cp_lookup ix2 (n0 + j)) (seq 0 nb)))
+        else ix1
+    | None => None
+    end.
+
+  Inductive tstep :=
+  | TOne (s : step)
+  | TFork (a b : list step).
+
+  Definition run_tstep (st : list commit * cpindex) (t : tstep) : list commit * cpindex :=
+    match t with
+    | TOne s => run_step st s
+    | TFork a b =>
+        let (cs1, ix1) := fold_left run_step a st in
+        let (cs2, ix2) := fold_left run_step b st in
+        let n0 := length (fst st) in
+        let B := skipn n0 cs2 in
+        (cs1 ++ B, merge_in (length cs1) ix1 n0 ix2 (length B))
+    end.
+  Definition run_t (steps : list tstep) : list commit * cpindex :=
+    fold_left run_tstep steps ([], None).
+
   (** The [files(matcher)] filter (revset_engine.rs:1375): through the index when the
       commit is indexed, through the tree diff otherwise ([has_diff_from_parent]). *)
   Definition pred_index (m : nat -> bool) (paths : list nat) : bool := existsb m paths.
@@ -102,10 +138,11 @@ End Repo.
 (* ------------------------------------------------------------------ the case *)
 
 Inductive cstep := CCommit (tree ptree : list N) | CBuild (maxc : N).
+Inductive ctstep := CT (s : cstep) | CF (a b : list cstep).
 
 Record case := mk_case {
   c_npaths : N;                                  (* size of the sorted path universe *)
-  c_steps : list cstep;                          (* what was done to the repository *)
+  c_steps : list ctstep;                         (* what was done to the repository *)
   c_stored : list (option (list N));             (* impl: changed_paths_in_commit per position *)
   c_range : option (N * N);                      (* impl: stats().changed_path_commits_range *)
   c_matchers : list (list N);                    (* path-set matchers (members) *)
@@ -118,7 +155,12 @@ Definition to_step (s : cstep) : step :=
   | CCommit t p => SCommit (mk_commit t p)
   | CBuild m => SBuild m
   end.
-Definition case_run (c : case) := run (N.to_nat (c_npaths c)) (map to_step (c_steps c)).
+Definition to_tstep (t : ctstep) : tstep :=
+  match t with
+  | CT s => TOne (to_step s)
+  | CF a b => TFork (map to_step a) (map to_step b)
+  end.
+Definition case_run (c : case) := run_t (N.to_nat (c_npaths c)) (map to_tstep (c_steps c)).
 Definition natl (l : list N) : list nat := map N.to_nat l.
 Definition lnat_eqb := list_eqb Nat.eqb.
 Definition matcher_of (l : list N) (p : nat) : bool := existsb (Nat.eqb p) (natl l).
